@@ -436,7 +436,7 @@ class Unit:
             body = body.replace(a, b)
         for rx, rep, cnt in self.rsubs:
             body, n = re.subn(rx, rep, body)
-            if n != cnt:
+            if cnt is not None and n != cnt:
                 raise LostAnchor('pattern %r occurs %d times in %s (contract written for %d)' % (rx, n, self.name, cnt))
         for a, b, cnt in self.subs_all:
             if body.count(a) != cnt:
